@@ -284,6 +284,10 @@ func (c *Ctx) Finish() int {
 	}
 	b, _ := json.MarshalIndent(ev, "", " ")
 	dir := filepath.Join(VerifDir, "evidence")
+	if os.Getenv("VERIF_NOEVIDENCE") != "" {
+		// calibration runs against scratch copies must not overwrite evidence
+		dir = filepath.Join(VerifDir, "out", "evidence-scratch")
+	}
 	os.MkdirAll(dir, 0o755)
 	if err := os.WriteFile(filepath.Join(dir, c.ID+".json"), append(b, '\n'), 0o644); err != nil {
 		fmt.Printf("TOOL-ERROR: cannot write evidence: %v\n", err)
